@@ -399,6 +399,18 @@ def _concat(ex, path, args, kwargs, node, fn):
     seq = args[0]
     if isinstance(seq, PyList) and seq.tail is None and len(seq.items) == 2 and all(isinstance(x, Arr) and x.ndim == 1 for x in seq.items):
         a, b = seq.items
+        # concatenate is a function: the same operands give the same array (functional consistency)
+        cache = path.ghost.setdefault("concat_cache", {}) if path is not None else {}
+        if (id(a), id(b)) in cache:
+            return cache[(id(a), id(b))][2]
+        r_ = _concat_pair(a, b)
+        cache[(id(a), id(b))] = (a, b, r_)
+        return r_
+    raise Unsupported(f"np.concatenate({seq!r})")
+
+
+def _concat_pair(a, b):
+    if True:
         na = a.shape[0]
         dt = "real" if "real" in (a.dtype, b.dtype) else a.dtype
         r = Arr([arith(ast.Add(), na, b.shape[0])],
@@ -406,7 +418,6 @@ def _concat(ex, path, args, kwargs, node, fn):
                                 to_z3(b.at(to_z3(k) - to_z3(na)), "real" if dt == "real" else None)), dt)
         r.facts = list(getattr(a, "facts", [])) + list(getattr(b, "facts", []))
         return r
-    raise Unsupported(f"np.concatenate({seq!r})")
 
 
 def amax_of(ex, path, a, tag="amax"):
@@ -683,3 +694,103 @@ def _diag(ex, path, args, kwargs, node, fn):
         zero = z3.RealVal(0) if a.dtype == "real" else z3.IntVal(0)
         return Arr([a.shape[0], a.shape[0]], lambda i, j: z3.If(to_z3(i) == to_z3(j), a.at(i), zero), a.dtype)
     raise Unsupported("diag of a matrix")
+
+
+# ---- more numpy (C08 / C01 design matrix) ------------------------------------------------------------------------------------
+_prev_argsort = LIB["<Arr>.argsort"]
+
+
+@model("<Arr>.argsort", "numpy.argsort", doc="argsort(x[, kind='stable']): a sorting permutation; with kind='stable' equal elements keep their "
+                                              "input order, hence the stable argsort of a non-decreasing array is the identity")
+def _argsort_kind(ex, path, args, kwargs, node, fn):
+    r = _prev_argsort(ex, path, args, kwargs, node, fn)
+    if kwargs.get("kind") == "stable" and not getattr(r, "stable_done", False):
+        a, _u = _unwrap_q(args[0])
+        n = a.shape[0]
+        k = z3.Int(fresh_name("k"))
+        j = z3.Int(fresh_name("j"))
+        facts = [q_forall([k], b_and(0 <= k, k < n - 1, a.at(r.at(k)) == a.at(r.at(k + 1))), r.at(k) < r.at(k + 1), pats=[r.at(k)]),
+                 z3.Implies(q_forall([j], b_and(0 <= j, j < n - 1), a.at(j) <= a.at(j + 1)),
+                            q_forall([k], b_and(0 <= k, k < n), r.at(k) == k, pats=[r.at(k)]))]
+        r.facts = list(r.facts) + facts
+        r.stable_done = True
+        path.assume(*facts)
+    return r
+
+
+_IPOW = z3.Function("ipow", z3.RealSort(), z3.IntSort(), z3.RealSort())
+
+
+def ipow_axioms():
+    x = z3.Real("x!ip")
+    c = z3.Int("c!ip")
+    return [z3.ForAll([x], _IPOW(x, 0) == 1), z3.ForAll([x, c], z3.Implies(c >= 0, _IPOW(x, c + 1) == _IPOW(x, c) * x), patterns=[_IPOW(x, c + 1)])]
+
+
+@model("numpy.vander", doc="vander(x, N, increasing=True)[r, c] = x[r]**c (integer power: ipow(x,0)=1, ipow(x,c+1)=ipow(x,c)*x)")
+def _vander(ex, path, args, kwargs, node, fn):
+    x = args[0]
+    N = kwargs.get("N", args[1] if len(args) > 1 else None)
+    if kwargs.get("increasing") is not True or N is None:
+        raise Unsupported("vander without increasing=True / N")
+    path.assume(*ipow_axioms())
+    return Arr([x.shape[0], N], lambda r, c: _IPOW(to_z3(x.at(r), "real"), to_z3(c)), "real", "vander")
+
+
+@model("ipow_", doc="spec: x**c for a natural number c")
+def _ipow_spec(ex, path, args, kwargs, node, fn):
+    return _IPOW(to_z3(args[0], "real"), to_z3(args[1]))
+
+
+@model("numpy.hstack", doc="hstack((A, B)): columns of A then columns of B")
+def _hstack(ex, path, args, kwargs, node, fn):
+    seq = args[0]
+    A, B = seq.items
+    na = A.shape[1]
+    return Arr([A.shape[0], arith_add(na, B.shape[1])],
+               lambda r, c: z3.If(to_z3(c) < to_z3(na), to_z3(A.at(r, c), "real"), to_z3(B.at(r, to_z3(c) - to_z3(na)), "real")), "real", "hstack")
+
+
+def arith_add(a, b):
+    from .symexec import arith as _ar
+    return _ar(ast.Add(), a, b)
+
+
+@model("numpy.unique", doc="unique(x): the distinct values of x in increasing order (ghost: index of each value, a witness position of each)")
+def _unique(ex, path, args, kwargs, node, fn):
+    a = args[0]
+    cache = path.ghost.setdefault("unique_cache", {})
+    if id(a) in cache:
+        return cache[id(a)][1]
+    m = fresh_int("n_unique")
+    uq = fresh_fn("unique", z3.IntSort(), z3.IntSort() if a.dtype == "int" else z3.RealSort())
+    where_ = fresh_fn("unique_at", z3.IntSort(), z3.IntSort())      # a position in x holding unique[j]
+    slot = fresh_fn("unique_slot", z3.IntSort(), z3.IntSort())      # the slot j of x[i]
+    j, j2, i = z3.Int(fresh_name("j")), z3.Int(fresh_name("j")), z3.Int(fresh_name("i"))
+    n = a.shape[0]
+    r = Arr([m], lambda k: uq(to_z3(k)), a.dtype, "unique")
+    r.facts = list(getattr(a, "facts", [])) + [
+        m >= 0, m <= n, z3.Implies(n >= 1, m >= 1),
+        q_forall([j, j2], b_and(0 <= j, j < j2, j2 < m), uq(j) < uq(j2), pats=[z3.MultiPattern(uq(j), uq(j2))]),
+        q_forall([j], b_and(0 <= j, j < m), b_and(0 <= where_(j), where_(j) < n, a.at(where_(j)) == uq(j)), pats=[uq(j)]),
+        q_forall([i], b_and(0 <= i, i < n), b_and(0 <= slot(i), slot(i) < m, uq(slot(i)) == a.at(i)), pats=[a.at(i)]),
+    ]
+    r.slot = slot
+    path.assume(*r.facts)
+    cache[id(a)] = (a, r)
+    return r
+
+
+_prev_concat3 = LIB["numpy.concatenate"]
+
+
+@model("numpy.concatenate", doc="concatenate((a, b, ...)): the arrays one after the other")
+def _concat_n(ex, path, args, kwargs, node, fn):
+    seq = args[0]
+    if isinstance(seq, PyList) and seq.tail is None and len(seq.items) >= 1 and all(isinstance(x, (Arr, SymSeq)) for x in seq.items):
+        items = [x if isinstance(x, Arr) else Arr([x.length], (lambda k, x=x: x.elem(k)), "int") for x in seq.items]
+        r = items[0]
+        for nxt in items[1:]:
+            r = _prev_concat3(ex, path, [PyList([r, nxt], None, True)], kwargs, node, fn)
+        return r
+    return _prev_concat3(ex, path, args, kwargs, node, fn)
